@@ -76,7 +76,7 @@ BOUNDS = {
         "g6": "g1 x g3: depth 0..3 x 3 spellings x 4 include mechanisms x sites x 4 arg sets x 4 context sets",
         "g8": "2 or 3 <%namespace file=> tags of one template pointing at libraries in different directories: every declaration order x call order as declared / reversed x 6 probes inside the library def (local.uri+self.uri, self.who()/local.who(), local.include_file, local.get_template, local.get_namespace, <%include>, all with a relative 't.html') x tag in a plain / derived / base template x 2 backings",
         "g9": "URI pairs that differ only in non-word characters (4 pairs, both orders) x {include, include first, namespace def, inherit}, each template declaring namespace 'n' with a different file; plus the control with a word-character difference; 2 backings",
-        "g10": "histories on one lookup: 24 templates reaching one library (import=*, import=names, named, inline defs in the tag, inheritable, include, inherit, API): all ordered pairs a,b,a x 2 backings",
+        "g10": "histories on one lookup: 26 templates reaching one library (import=*, import=names, named, inline defs in the tag, inheritable, include, inherit, API): all ordered pairs a,b,a x 2 backings",
         "g7": "same namespace name 'h' declared in two files of one render: 12 ordered directory-depth pairs x {h.get_namespace, h.get_template, h.include_file, chained get_namespace} x {includer+included, template+namespace file, derived+base} x which call runs first x target beside both/first/second/neither x 2 backings",
     },
     "thorough": {
@@ -497,14 +497,20 @@ def gen_g3(tier, al):
         pages.append("a='dflt', b=2, **kw")
     for page in pages:
         kw = "**" in page
-        for ga, gb, gz in itertools.product((0, 1), repeat=3):
+        for ga, gb, gz in itertools.product((0, 1, 2), (0, 1, 2), (0, 1)):
             if gz and not kw:
                 continue
+            if (ga == 2 or gb == 2) and gz:
+                continue
             parts = []
-            if ga:
+            if ga == 1:
                 parts.append("a='%sarg'" % v[0])
-            if gb:
+            elif ga == 2:
+                parts.append("a=''")  # an argument that is given, with a value that is false in a boolean test
+            if gb == 1:
                 parts.append("b='%sarg'" % v[1])
+            elif gb == 2:
+                parts.append("b=0")
             if gz:
                 parts.append("z=9")
             args = ", ".join(parts)
@@ -568,6 +574,17 @@ def gen_g3(tier, al):
                 M = g3_includer(files, includer, stmt)
                 meta = {"grid": "g3", "page": None, "args": "", "ctx": sorted(ctx), "includer": includer, "mech": mech, "target_inherits": 1}
                 yield meta, functools.partial(_const, (files, M, dict(ctx)))
+                # the BASE of the included chain declares <%page> arguments: the body that runs is the base's, so its
+                # arguments are the ones taken from args / the context
+                for args2 in ("", "c='%sarg'" % v[2]):
+                    files = {
+                        "/w/inc/t.html": File(inherit="tb.html", body=[T("[t:c="), ["ctxget", "c"], T("]")]),
+                        "/w/inc/tb.html": File(page="c='dflt', e='edflt'", body=[T("[tb:c="), ["var", "c"], T(" e="), ["var", "e"], T("("), ["attr", "next", "body", ""], T(")]")]),
+                    }
+                    stmt = ["include", "inc/t.html", args2] if mech == "tag" else ["include_file", "local", "inc/t.html", args2]
+                    M = g3_includer(files, includer, stmt)
+                    meta = {"grid": "g3", "page": "c='dflt', e='edflt'", "args": args2, "ctx": sorted(ctx), "includer": includer, "mech": mech, "target_inherits": 2}
+                    yield meta, functools.partial(_const, (files, M, dict(ctx)))
 
 
 # --------------------------------------------------------------------------
@@ -904,6 +921,10 @@ G10_MAINS = {
     "include-overlong-name": ('[<%include file="' + "n" * 300 + '.html"/>]', "LOOKUP-ERROR"),
     "include-a-directory": ('[<%include file="/d"/>]', "LOOKUP-ERROR"),
     "get_template-below-a-file": ("[${context.lookup.get_template('/d/lib.html/x/y.html').render()}]", "LOOKUP-ERROR"),
+    # the include target inherits and the BASE declares <%page> arguments: as when the target is rendered on its own, the
+    # body that runs takes them from args first, from the context second
+    "include-inheriting-target": ('[<%include file="inh.html"/>|<%include file="inh.html" args="pc=\'A\'"/>]', "[B(CTX|I)|B(A|I)]"),
+    "include_file-inheriting-target": ("[<% local.include_file('inh.html') %>|<% local.include_file('inh.html', pc='A') %>]", "[B(CTX|I)|B(A|I)]"),
     "star-attr-probe": ('<%namespace name="q" file="lib.html"/>[${hasattr(q, "extra")}${hasattr(q, "more")}${sorted(k for k in ("libdef", "other", "extra", "more", "lb") if hasattr(q, k))}]', "[FalseFalse['lb', 'libdef', 'other']]"),
 }
 
@@ -919,7 +940,8 @@ def g10_cases(tier):
 def g10_execute(c):
     from mako.lookup import TemplateLookup
 
-    files = {"/d/lib.html": G10_LIB, "/d/lib2.html": '<%def name="two()">2</%def>', "/d/ibase.html": '<%namespace name="q" file="lib.html" inheritable="True"/>${next.body()}'}
+    files = {"/d/lib.html": G10_LIB, "/d/lib2.html": '<%def name="two()">2</%def>', "/d/inh.html": '<%inherit file="ibase2.html"/>I',
+             "/d/ibase2.html": "<%page args=\"pc='dflt'\"/>B(${pc}|${next.body()})", "/d/ibase.html": '<%namespace name="q" file="lib.html" inheritable="True"/>${next.body()}'}
     for k, (src, _e) in G10_MAINS.items():
         files["/d/" + k + ".html"] = src
     wd = None
@@ -936,7 +958,7 @@ def g10_execute(c):
         obs = []
         for k in c["order"]:
             try:
-                obs.append("".join(lk.get_template("/d/" + k + ".html").render_unicode().split("\n")))
+                obs.append("".join(lk.get_template("/d/" + k + ".html").render_unicode(pc="CTX").split("\n")))
             except Exception as e:  # noqa
                 from mako import exceptions as mexc
 
